@@ -153,6 +153,9 @@ def mux_tree(p, lam, seed, rnd, levels, rounds):
 def from_tlc_hist(path, p, lam, seed, R):
     """A behaviour written by Gen_MachineP (ndjson list of ops) as a program."""
     p.key(lam, R, seed)
+    rnd = random.Random(seed)
+    for r in range(R):
+        p.load(r, rnd.randint(0, 1), 0)
     for ln in open(path):
         o = json.loads(ln)
         if o["op"] == "load":
